@@ -231,6 +231,29 @@ let run_case id kind cap ordered overhead ops =
             emit ("C " ^ show_obs c.st)
           end
     end in
+  (* B installs the image A's LogReader holds (saved by an earlier save of A: an image is a value,
+     nothing A applies later changes it), then gets the rest of the log *)
+  let install_from tag head ov split =
+    flush ();
+    match a.img with
+    | Some (img, ua) when nlt b.st.r_last_index img.i_index ->
+      record b img ua;
+      b.ns <- nstep overhead b.ns (NReceive img.i_index);
+      let l = loads false b.st img in
+      let got =
+        match rsm_recover cfg false b.st img with
+        | Err _ -> raise Panic
+        | Ok RecOutOfDate -> N0
+        | Ok (Recovered st') -> b.st <- st'; after_recover b img ua l; img.i_index in
+      b.ns <- nstep overhead b.ns (NRecover (got <> N0, false));
+      let before = remove_log b in
+      emit (Printf.sprintf "%s %s from=%s %s | %s" tag head (string_of_n got) (show_obs b.st) (show_aux b.st));
+      new_removals b before;
+      b.lag <- false;
+      let g = int_of_n got in
+      let from = if g = 0 then int_of_n b.st.r_index + 1 else if g + 1 > ov then g + 1 - ov else 1 in
+      catch_up b from split
+    | _ -> emit (Printf.sprintf "%s %s nothing-to-install" tag head) in
   let op o =
     match split_ws o with
     | ["a"; c; s; r; cmd] ->
@@ -323,32 +346,15 @@ let run_case id kind cap ordered overhead ops =
       done;
       b.lag <- false
     | ["I"; ov; split] ->
-      let ov = n_of_string ov and split = int_of_string split in
       flush ();
       let saved = do_save a default_req [] in
-      let ss = match a.img with
-        | Some (img, ua) when a.ns.n_lr_snapshot = img.i_index -> Some (img, ua)
-        | x -> x in
-      (match ss with
-       | Some (img, ua) when nlt b.st.r_last_index img.i_index ->
-         record b img ua;
-         b.ns <- nstep overhead b.ns (NReceive img.i_index);
-         let l = loads false b.st img in
-         let got =
-           match rsm_recover cfg false b.st img with
-           | Err _ -> raise Panic
-           | Ok RecOutOfDate -> N0
-           | Ok (Recovered st') -> b.st <- st'; after_recover b img ua l; img.i_index in
-         b.ns <- nstep overhead b.ns (NRecover (got <> N0, false));
-         let before = remove_log b in
-         emit (Printf.sprintf "I saved=%s from=%s %s | %s" (string_of_n saved) (string_of_n got) (show_obs b.st) (show_aux b.st));
-         new_removals b before;
-         b.lag <- false;
-         let g = int_of_n got in
-         let ovi = if nlt (n_of_int 1000000) ov then 1000000 else int_of_n ov in
-         let from = if g = 0 then int_of_n b.st.r_index + 1 else if g + 1 > ovi then g + 1 - ovi else 1 in
-         catch_up b from split
-       | _ -> emit (Printf.sprintf "I saved=%s nothing-to-install" (string_of_n saved)))
+      install_from "I" ("saved=" ^ string_of_n saved) (small (n_of_string ov)) (int_of_string split)
+    | ["P"] ->
+      flush ();
+      let saved = do_save a default_req [] in
+      emit ("P saved=" ^ string_of_n saved)
+    | ["K"; ov; split] ->
+      install_from "K" "record" (small (n_of_string ov)) (int_of_string split)
     | w :: _ -> emit ("? " ^ w)
     | [] -> () in
   let failed = ref false in
